@@ -64,7 +64,8 @@ CLAIMS = {
             'option sets.',
             'DESIGN.md §4 C20, §10'),
     "C03": ("Theorem C03_check_is_parse (all environments, expressions, states, fuel): tcheck = erase . tparse incl. stack and tracker "
-            "trace; lifted to partial and full entry points. Tie: every catalogue shape x all small inputs, model vs runtime crate "
+            "trace; lifted to partial and full entry points; C03_same_report / C03_check_fail_parse_fail: a rejected check entry point and the "
+            "rejected parse entry point render the identical report (Model/Report.v over the same tracker trace). Tie: every catalogue shape x all small inputs, model vs runtime crate "
             "(parse path and check path separately) and implementation parse vs check directly.", "DESIGN.md §4 C03"),
     "C05": ("Theorem C05_no_trace: the concrete parse path (pest::Stack with snapshots, repaired restore_on_none) refines the "
             "immutable-stack reference interpreter aparse under the Stack representation invariant, for all expressions/inputs/fuel; "
@@ -77,7 +78,9 @@ CLAIMS = {
             "the end of the last matched unit, failure only below MIN), C19_rep_bounds_impl / C19_rep_fails_impl (real parse path, via "
             "C05), C19_array, C19_pair, C19_opt, C19_skip_chars (real parse and check path on valid UTF-8: exactly the first N characters or "
             "failure), C19_atomic_rep (+ C19_atomic_rep_silent: no tracker events), C19_real_path; witness C19_refuted_before_fix. Tie: bounds family (all MIN, MAX incl. MIN > MAX) with the reference "
-            "interpreter and an independent counting oracle.", "DESIGN.md §4 C19"),
+            "interpreter and an independent counting oracle; explicit skip counts (SKIP in 0..3 with bounded, non-idempotent skip nodes, outside the "
+            "main model's off / on / inherited): RepMin / RepMinMax / RepExact / Rep / RepOnce / Seq2 / Seq3 / nested, parse and check vs the counting "
+            "specification on all strings over {a, b, blank} up to the tier's length (harness/unitskip, vlib/skipn.py).", "DESIGN.md §4 C19"),
     "C08": ("Tie: every catalogue shape x every Span(s,a,b) / Position(s,a) sub-input vs the fresh slice shifted by a (verdicts, offsets, "
             "trees, stack, tracker, tokens), model vs code on all three cursor forms; byte-level model of the three cursors incl. the "
             "repaired skip_until. Theorem status: see Properties/C08.v.", "DESIGN.md §4 C08"),
@@ -92,7 +95,11 @@ CLAIMS = {
             "all spans/positions incl. recording FormatOption against the model and an independent oracle; known finding F4b "
             "(span starting at a line start is rendered from the previous line; pinned by an existing test).", "DESIGN.md §4 C14"),
     "C04": ("Theorems C04_full_iff / C04_check_iff / C04_eoi_attempt (try_parse = Ok iff prefix parse + trailing skip (none for atomic "
-            "kinds) + at end; tree of the prefix parse), C04_no_success_with_unread, C04_no_reject_at_end. Tie: rule structs of all "
+            "kinds) + at end; tree of the prefix parse), C04_no_success_with_unread, C04_no_reject_at_end; against pest's own semantics "
+            "(Model/PegSpec.v): C04_no_ignore_by_kind, C04_trailing_skip_is_pest_skip (the typed trailing skip = pest's implicit skip in non-atomic "
+            "state: same offset, same stack), C04_full_parse_is_pest / C04_full_parse_agrees (try_parse accepts exactly when pest's prefix match "
+            "followed, unless the rule is atomic / compound-atomic, by pest's implicit skip reaches the end of the input), C04_full_parse_total "
+            "(no premise on either run under the C11 certificate), C04_example. Tie: rule structs of all "
             "kinds x inputs with skippable / pseudo-skippable tails x three input forms, against an independent trailing-skip oracle.",
             "DESIGN.md §4 C04"),
     "C09": ("Theorems C09_matchers (+ per-operation forms, C09_prefix_code), C09_boundaries / C09_boundaries_check (for every expression, "
@@ -105,7 +112,10 @@ CLAIMS = {
             "matched prefix), C10_trace_sound / C10_report_truthful / C10_report_unexpected_matches (every logged exit event and every "
             "listed rule is backed by the rule body's verdict in the state it was tried in), C10_report_says / C10_report_complete / "
             "C10_report_lists_sorted / C10_rendered_report_truthful (Model/Report.v = collect_to_message: the rendered lines call a rule "
-            "expected / unexpected exactly when it is in the entry's positives / negatives, so truthfulness holds of the text). Tie: "
+            "expected / unexpected exactly when it is in the entry's positives / negatives, so truthfulness holds of the text), C10_head_line / "
+            "C10_head_line_no_panic / C10_entry_report_head_renders (Model/ReportHead.v = the head of the message, `&line[..byte index of the "
+            "(col-1)-th char]`: never panics at the location any entry point reports, and is the text between the last LF and that location), "
+            "C10_head_line_example. Tie: the head text and the indentation of the real message vs the model (RP field); "
             "Tracker::finish() and the rendered report lines of the real code vs the model for every run; location checks; the harness "
             "re-derives every rendered line from finish(); rendering twice + second process; semantic audit on the real code (expected "
             "rules re-run at the reported location).",
